@@ -9,12 +9,12 @@ from ..frontend.pyfront import Repo
 from .common import need_func, need_class, methods, make_eq
 
 LEVEL = 'other'
-TECHNIQUE = 'abstract interpretation of the conversion helpers (py and pyx twins) with polynomial identity testing of f(g(x)) = x and twin agreement (constants compared as exact rationals); ownership lint over the whole package; orbit mutators interpreted on a symbolic orbit object and the resulting stores checked for Kepler consistency'
+TECHNIQUE = 'abstract interpretation of the conversion helpers (py and pyx twins) with polynomial identity testing of f(g(x)) = x and twin agreement (constants compared as exact rationals); ownership lint over the whole package; orbit mutators interpreted on a symbolic orbit object and the resulting stores checked for Kepler consistency, with the real world_signature_to_index interpreted on a star + host + two moons graph'
 LEVEL_TEXT = ('Inverse pairs and twin agreement are exact real-number identities for all positive inputs; the orbit clause is decided for every public mutator path by interpreting the '
               'mutator on a symbolic orbit and checking the three stored Kepler quantities against each other, plus a who-may-write rule over all modules.')
 LEVEL_NOTE = ('Trusted: front-ends, interpreter, real algebra (rounding error of the inverse pairs is not decided). scipy.constants.G is read from the installed scipy source text (external).')
 EXPLANATION = ('R17.1 inverse pairs (py and pyx); R17.2 py twin == pyx twin incl. constants; R17.3 only OrbitBase methods store the Kepler lists, property setters raise; '
-               'R17.4 after every mutator the stored (a, n, P) of that world satisfy Kepler III with (host mass, world mass) and P = 2 pi / n / 86400, or are all cleared.')
+               'R17.4 after every mutator the stored (a, n, P) of that world satisfy Kepler III with (host mass, world mass) and P = 2 pi / n / 86400, or are all cleared, setters write exactly the designated slot and getters read the slot the setters write; R17.5 no in-place update of arguments.')
 
 PAIRS = (('m2Au', 'Au2m'), ('rads2days', 'days2rads'), ('sec2myr', 'myr2sec'), ('orbital_motion2semi_a', 'semi_a2orbital_motion'))
 
